@@ -138,6 +138,8 @@ package keeper
 //@   ensures [C05.timeout.shards] old(has(Order, orderId)) && old(Order[orderId].Status) != OrderPending && !has(Order, orderId) ==>
 //@       forall i int :: 0 <= i && i < len(old(Order[orderId].Shards)) ==> !has(Shard, old(Order[orderId].Shards)[i])
 //@   ensures [C12.timeout.absent] !old(has(Order, orderId)) ==> !has(Order, orderId)
+//@   ensures [C13.timeout.listed] old(forall x int :: 0 <= x && x <= MaxUint64 && has(Shard, x) && Shard[x].OrderId == orderId ==> contains(Order[orderId].Shards, x)) && has(Order, orderId) ==>
+//@       forall x int :: 0 <= x && x <= MaxUint64 && has(Shard, x) && Shard[x].OrderId == orderId ==> contains(Order[orderId].Shards, x)
 //@   ensures [C12.timeout.stored] old(has(Order, orderId)) && old(Order[orderId].Status) == OrderCompleted
 //@       && (forall i int :: 0 <= i && i < len(old(Order[orderId].Shards)) ==> old(has(Shard, Order[orderId].Shards[i])) && old(Shard[Order[orderId].Shards[i]].Status) == ShardCompleted) ==>
 //@       has(Order, orderId) && Order[orderId] == old(Order[orderId])
@@ -157,6 +159,8 @@ package keeper
 //@   loop L1 invariant [C12.timeout.progress] timeoutCount == 0 ==> forall j int :: 0 <= j && j <= rangeindex && has(Shard, order.Shards[j]) ==> Shard[order.Shards[j]].Status != ShardWaiting
 //@   loop L1 invariant [C12.timeout.progress] forall q int :: 0 <= q && q < len(completedShards) ==> has(Shard, completedShards[q]) && Shard[completedShards[q]].Status == ShardCompleted
 //@   loop L1 invariant [C12.timeout.stored] (forall i int :: 0 <= i && i < len(order.Shards) ==> has(Shard, order.Shards[i]) && Shard[order.Shards[i]].Status == ShardCompleted) ==> len(uncompletedShards) == 0 && timeoutCount == 0
+//@   loop L1 invariant [C13.timeout.listed] forall q int :: 0 <= q && q < len(timeoutShards) ==> has(Shard, timeoutShards[q].Id) && Shard[timeoutShards[q].Id] == timeoutShards[q]
+//@   loop L1 invariant [C13.timeout.listed] forall j int :: 0 <= j && j <= rangeindex && has(Shard, order.Shards[j]) ==> contains(completedShards, order.Shards[j]) || contains(uncompletedShards, order.Shards[j])
 //@   loop L1 decreases [C02.timeout.term] len(order.Shards) - rangeindex
 //@   loop L2 invariant -1 <= rangeindex
 //@   loop L2 invariant [C12.timeout.progress] forall q int :: 0 <= q && q < len(completedShards) && has(Shard, completedShards[q]) ==> Shard[completedShards[q]].Status == ShardCompleted
@@ -164,13 +168,18 @@ package keeper
 //@   loop L2 invariant [C12.timeout.progress] Order[orderId0] == old(Order[orderId0]) && has(Order, orderId0)
 //@   loop L2 invariant [C12.timeout.stored] rangeindex < len(uncompletedShards)
 //@   loop L2 invariant [C12.timeout.stored] rangeindex == -1 ==> forall i int :: 0 <= i && i <= MaxUint64 ==> Shard[i] == entry(Shard[i]) && (has(Shard, i) <==> entry(has(Shard, i)))
+//@   loop L2 invariant [C13.timeout.listed] forall q int :: 0 <= q && q <= rangeindex ==> !has(Shard, uncompletedShards[q])
 //@   loop L2 decreases [C02.timeout.term] len(uncompletedShards) - rangeindex
 //@   loop L3 invariant -1 <= rangeindex && rangeindex < len(order.Shards)
 //@   loop L3 invariant forall j int :: 0 <= j && j <= rangeindex ==> !has(Shard, order.Shards[j])
 //@   loop L3 invariant Order[orderId0] == old(Order[orderId0]) && has(Order, orderId0)
+//@   loop L3 invariant [C13.timeout.listed] forall i int :: 0 <= i && i <= MaxUint64 && has(Shard, i) ==> entry(has(Shard, i)) && Shard[i] == entry(Shard[i])
 //@   loop L3 decreases [C02.timeout.term] len(order.Shards) - rangeindex
 //@   loop L4 invariant -1 <= rangeindex
 //@   loop L4 invariant [C12.timeout.progress] forall q int :: 0 <= q && q < len(completedShards) && has(Shard, completedShards[q]) ==> Shard[completedShards[q]].Status == ShardCompleted
+//@   loop L4 invariant [C13.timeout.listed] rangeindex < len(uncompletedShards) && (forall q int :: 0 <= q && q <= rangeindex ==> !has(Shard, uncompletedShards[q]))
+//@   loop L4 invariant [C13.timeout.listed] forall i int :: 0 <= i && i <= MaxUint64 && has(Shard, i) ==> entry(has(Shard, i)) && Shard[i] == entry(Shard[i])
+//@   loop L4 invariant [C13.timeout.listed] Order[orderId0] == old(Order[orderId0]) && has(Order, orderId0)
 //@   loop L4 decreases [C02.timeout.term] len(uncompletedShards) - rangeindex
 //@   loop L5 frameexcept order
 //@   loop L5 invariant -1 <= rangeindex && rangeindex < len(randSp)
@@ -178,6 +187,11 @@ package keeper
 //@   loop L5 invariant effShardCount(get(ShardCount)) <= old(effShardCount(get(ShardCount))) + rangeindex + 1 && effShardCount(get(ShardCount)) >= old(effShardCount(get(ShardCount)))
 //@   loop L5 invariant has(Order, orderId0)
 //@   loop L5 invariant [C12.timeout.progress] order.Timeout == old(Order[orderId0].Timeout) && order.Id == orderId0
+//@   loop L5 invariant [C13.timeout.listed] old(forall x int :: 0 <= x && x <= MaxUint64 && has(Shard, x) && Shard[x].OrderId == orderId0 ==> contains(Order[orderId0].Shards, x)) ==>
+//@       forall x int :: 0 <= x && x <= MaxUint64 && has(Shard, x) && Shard[x].OrderId == orderId0 ==> contains(order.Shards, x)
+//@   loop L5 invariant [C13.timeout.listed] order.Id == orderId0
+//@   loop L5 invariant [C13.timeout.listed] forall q int :: rangeindex < q && q < len(timeoutShards) ==> has(Shard, timeoutShards[q].Id) && Shard[timeoutShards[q].Id].OrderId == timeoutShards[q].OrderId
+//@       && timeoutShards[q].Id < old(effShardCount(get(ShardCount)))
 //@   loop L5 decreases [C02.timeout.term] len(randSp) - rangeindex
 
 // providers that hold the shards of a model's latest order (reused by a force-push)
